@@ -491,16 +491,17 @@ static void extDrv(const J &sc, Emitter &out)
             std::string comp = av["comp"].str();
             if (e) {
                 double w1 = q((*e)[comp]), w2 = q((*e)[comp + "2"]);
-                bool ok1 = closeTo(at(isState ? rc.states : rc.variables), w1, 1e-9) && closeTo(at(isState ? rp.states : rp.variables), w1, 1e-9);
-                bool ok2 = closeTo(at(isState ? rc.states2 : rc.variables2), w2, 1e-9) && closeTo(at(isState ? rp.states2 : rp.variables2), w2, 1e-9);
+                double tol = sys["nla"].str("none") == "none" ? 1e-9 : 1e-6; // a root found numerically, and what reads it
+                bool ok1 = closeTo(at(isState ? rc.states : rc.variables), w1, tol) && closeTo(at(isState ? rp.states : rp.variables), w1, tol);
+                bool ok2 = closeTo(at(isState ? rc.states2 : rc.variables2), w2, tol) && closeTo(at(isState ? rp.states2 : rp.variables2), w2, tol);
                 if (!rc.variables2.size() && !rc.states2.size()) { // no callback in the generated code: no second step was run
                     ok2 = closeTo(w1, w2, 1e-12);
                 }
                 if (isState) {
                     double r1 = q((*e)["rate"]), r2 = q((*e)["rate2"]);
-                    ok1 = ok1 && closeTo(at(rc.rates), r1, 1e-9) && closeTo(at(rp.rates), r1, 1e-9);
+                    ok1 = ok1 && closeTo(at(rc.rates), r1, tol) && closeTo(at(rp.rates), r1, tol);
                     if (rc.states2.size()) {
-                        ok2 = ok2 && closeTo(at(rc.rates2), r2, 1e-9) && closeTo(at(rp.rates2), r2, 1e-9);
+                        ok2 = ok2 && closeTo(at(rc.rates2), r2, tol) && closeTo(at(rp.rates2), r2, tol);
                     }
                 }
                 f.set("known", J(true)).set("ok1", J(ok1)).set("ok2", J(ok2));
